@@ -1,12 +1,12 @@
 SPECIFICATION Spec
 CONSTANTS
-  N = 3
+  N = 4
   Facts = {p}
   MaxOut = 2
-  Runs = 3
+  Runs = 1
   FirstVisitCounts = TRUE
   WaitForVisited = TRUE
-  RootsAreEntries = TRUE
-INVARIANTS SweepBound FixedPoint Stable AllVisited
-PROPERTY Terminates
+  RootsAreEntries = FALSE
+CONSTRAINT NoKill
+INVARIANTS SweepBound
 CHECK_DEADLOCK FALSE
